@@ -97,3 +97,23 @@ func EmitWorkerResult(r *WorkerResult) {
 	b, _ := json.Marshal(r)
 	fmt.Println("WORKERJSON " + string(b))
 }
+
+// SaveRaceReports extracts the race detector's reports (other than the canary's) from the
+// workers' stderr into /verif/replays/<id>-race-reports.txt and returns how many there are.
+func SaveRaceReports(id, stderr string) int {
+	blocks := strings.Split(stderr, "==================")
+	var keep []string
+	for _, b := range blocks {
+		if strings.Contains(b, "WARNING: DATA RACE") && !strings.Contains(b, "canaryH") {
+			keep = append(keep, strings.TrimSpace(b))
+		}
+	}
+	path := filepath.Join(Root, "replays", id+"-race-reports.txt")
+	if len(keep) == 0 {
+		os.Remove(path)
+		return 0
+	}
+	os.MkdirAll(filepath.Dir(path), 0o755)
+	os.WriteFile(path, []byte(strings.Join(keep, "\n==================\n")+"\n"), 0o644)
+	return len(keep)
+}
